@@ -179,6 +179,13 @@ let run_dump path (args : string) : string list =
   ignore (Unix.close_process_in ic); List.rev !lines
 let hex_dash s = Printf.sprintf "%08x:%s" (String.length s) (String.concat "-" (List.init (String.length s) (fun i -> Printf.sprintf "%02x" (Char.code s.[i]))))
 let dump_line (k, v) = hex_dash k ^ " " ^ hex_dash v
+(* the model of src/mtbl_dump.c (model/Tools.v, extracted): what T01_dump says the tool prints *)
+let model_dump ?kp ?vp ?(kmin = 0) ?(vmin = 0) (es : (string * string) list) : string list =
+  let o = { do_key_prefix = (match kp with Some p -> Some (nl_of_string p) | None -> None);
+            do_val_prefix = (match vp with Some p -> Some (nl_of_string p) | None -> None);
+            do_key_min = n_of_int kmin; do_val_min = n_of_int vmin } in
+  List.filter_map (fun (k, v) -> let e = (nl_of_string k, nl_of_string v) in
+                    if dump_keep o e then Some (string_of_nl (dump_line_hex e)) else None) es
 
 (* everything we check on one table file *)
 let check_table acc st ~props ~klass ~(table_json : unit -> json) ~(path : string) ~(file : string)
@@ -222,6 +229,8 @@ let check_table acc st ~props ~klass ~(table_json : unit -> json) ~(path : strin
        if with_dump then begin
          bump acc "mtbl_dump_runs";
          let got = run_dump path "-x" in
+         if got <> model_dump es then
+           fail acc ~kind:"model_mismatch" ~what:"[C01] mtbl_dump -x differs from the model of the tool (T01_dump)" (table_json ());
          if got <> List.map dump_line es then
            fail acc ~kind:"spec_violation" ~what:"[C01] mtbl_dump -x does not print exactly the table's entries" (table_json ());
          (* filters *)
@@ -233,11 +242,14 @@ let check_table acc st ~props ~klass ~(table_json : unit -> json) ~(path : strin
            let tohex s = String.concat "" (List.init (String.length s) (fun i -> Printf.sprintf "%02x" (Char.code s.[i]))) in
            let args = ref "-x" and pred = ref (fun (_ : string * string) -> true) in
            let add a p = args := !args ^ " " ^ a; (let q = !pred in pred := (fun e -> q e && p e)) in
-           if kp <> "" && rbool st then add ("-k " ^ tohex kp) (fun (k, _) -> is_prefix kp k);
-           if vp <> "" && rbool st then add ("-v " ^ tohex vp) (fun (_, v) -> is_prefix vp v);
-           if rbool st then add (Printf.sprintf "-K %d" kmin) (fun (k, _) -> String.length k >= kmin);
-           if rbool st then add (Printf.sprintf "-V %d" vmin) (fun (_, v) -> String.length v >= vmin);
+           let mkp = ref None and mvp = ref None and mkmin = ref 0 and mvmin = ref 0 in
+           if kp <> "" && rbool st then (add ("-k " ^ tohex kp) (fun (k, _) -> is_prefix kp k); mkp := Some kp);
+           if vp <> "" && rbool st then (add ("-v " ^ tohex vp) (fun (_, v) -> is_prefix vp v); mvp := Some vp);
+           if rbool st then (add (Printf.sprintf "-K %d" kmin) (fun (k, _) -> String.length k >= kmin); mkmin := kmin);
+           if rbool st then (add (Printf.sprintf "-V %d" vmin) (fun (_, v) -> String.length v >= vmin); mvmin := vmin);
            let got = run_dump path !args in
+           if got <> model_dump ?kp:!mkp ?vp:!mvp ~kmin:!mkmin ~vmin:!mvmin es then
+             fail acc ~kind:"model_mismatch" ~what:("[C01] mtbl_dump " ^ !args ^ " differs from the model of the tool (T01_dump)") (table_json ());
            if got <> List.map dump_line (List.filter !pred es) then
              fail acc ~kind:"spec_violation" ~what:("[C01] mtbl_dump " ^ !args ^ " does not print exactly the matching subsequence") (table_json ())
          end
